@@ -6,7 +6,9 @@ from coreutil import Scenario, reads, toks
 from refcodec import decode_client_frames, ClientFrameError
 
 TRUSTED = ['correspondence: harness/world.py', 'frame-level correspondence: the real Frame.build / mask_payload / build_close_payload and the model driver ops `frame build|mask|closepayload`; the model\'s specification decoder `Spec.decodeClientFrame` (`frame decode`) against refcodec', 'harness/refcodec.py decode_client_frames: independent RFC 6455 section 5.2 decoder (requires MASK=1, minimal length, control <= 125, FIN on control)']
-ASSUMPTIONS = ['send_json is covered through send_text (json.dumps is not modelled)', 'caller data untouched: only immutable bytes/str are accepted by the API; checked by the harness, not a theorem',
+ASSUMPTIONS = ['send_json: json.dumps is a parameter of the model (ZFrame.sendJson; C03Z.send_json_is_send_text / send_json_as_act: the core driver is handed the equivalent send_text call)',
+               'compressed frames: zlib is a parameter (ZFrame.Deflater); the byte-level comparison (driver op corez) instantiates it with an independent replay of the plaintext history through zlib',
+               'key-schedule theorems: the application passes payloads shorter than 2^63 bytes (no Python object is longer); masking keys are os.urandom(4) with os.urandom returning as many bytes as asked', 'caller data untouched: only immutable bytes/str are accepted by the API; checked by the harness, not a theorem',
                'mask_payload slice/translate mechanics checked exhaustively on the real code (4 lanes x 256 keys x 256 data bytes) rather than proved']
 
 LENS = list(range(0, 131)) + [65530, 65535, 65536, 65537, 70000]
@@ -228,7 +230,7 @@ def explore_frames(res, tier, rng, model_ok):
     for w in dec:
         inputs.append(('valid', w))
         inputs.append(mutate_frame(rng, w))
-    for _ in range(50 if tier == 'quick' else 500):
+    for _ in range((50 if tier == 'quick' else 500) if dec else 0):      # no frame at all was built: already reported above
         inputs.append(('seq', b''.join(rng.choice(dec) for _ in range(rng.randint(2, 4)))))
     for w in [x for x in wires if len(x) >= 65536][:3]:
         inputs.append(('valid-long', w)); inputs.append(('trunc-long', w[:-1]))
@@ -358,6 +360,124 @@ def explore_histories(res, tier, rng, model_ok):
             if model is not None and tr[k] != model:
                 res.diffs.append(dict(input=line[:2000], real=tr[k][-1000:], model=model[-1000:], scenario=js, previous=ch[:k]))
 
+# ---------------------------------------------------------------------------------------------
+# wire bytes: every byte string `sendall` accepted during a connection, compressed frames included,
+# against the model's rendering `ZFrame.wireAll` (driver op `corez`) with zlib as the compressor
+# parameter -- the zlib payloads come from an independent replay of the plaintext history, the keys
+# from the connection's key source
+
+def real_wire(sc_json):
+    """run the scenario on the real code; returns dict(trace=<canonical trace>, raw=[hex of every accepted sendall])"""
+    import world as _world
+    sc = coreutil.scenario_from_json(sc_json)
+    ws = []
+    try:
+        tr = _world.run_chain([sc], worlds=ws)[0]
+    except runner.HangError:
+        return dict(trace='HANG', raw=[])
+    return dict(trace=tr, raw=[bytes(d).hex() for d in ws[0].raw], peer=ws[0].peer_cfg if isinstance(ws[0].peer_cfg, dict) else None)
+
+
+def zlib_replay(plains, cw, no_takeover):
+    """what RFC 7692 section 7.2.1 asks of the sender, with the window lomond picks (zlib cannot do 2^8):
+       one raw-deflate stream per connection (per message with client_no_context_takeover), sync flush, tail removed"""
+    import zlib
+    out, c = [], None
+    for p in plains:
+        if c is None or no_takeover:
+            c = zlib.compressobj(zlib.Z_DEFAULT_COMPRESSION, zlib.DEFLATED, -max(9, cw))
+        z = c.compress(p) + c.flush(zlib.Z_SYNC_FLUSH)
+        assert z.endswith(b'\x00\x00\xff\xff')
+        out.append(z[:-4])
+    return out
+
+
+def wire_scenarios(rng, tier):
+    """(scenario, [plaintexts of the compressed calls, in call order])"""
+    import json as _json
+    out = []
+    n = 0
+    for ext in EXTS:
+        if ext is None:
+            continue
+        for variant in range(4 if tier == 'quick' else 12):
+            n += 1
+            sc, exp = history_scenario(rng, ext, 90 + n)
+            if variant % 4 == 1:
+                # calls before the socket exists: refused (WebSocketUnavailable) after their frame was built: each draws a key
+                sc.reactions[0] = [('send_ping', ('b', b'early')), ('send_text', ('s', [104, 105]), True)][:rng.choice([1, 2])]
+            if variant % 4 == 2:
+                # a plain frame whose sendall raises (index 0 is the request): it has drawn a key too
+                sc.wfail = {rng.choice([3, 4])}
+            if variant % 4 == 3:
+                sc.reactions[0] = [('send_binary', ('b', b'x'), False)]
+                sc.wfail = {4}
+                sc.prate = 1                  # an automatic Ping joins the frames (the eof step advances the clock)
+                sc.env = sc.env[:-1] + [('wait', 2, None), ('wait', 1, ('eof',))]
+            plains = [p for (op, p, c) in exp if c]
+            out.append((sc, plains, ext))
+    return out
+
+
+def explore_wire(res, tier, rng, model_ok):
+    from world import scenario_line, test_key
+    cases = wire_scenarios(rng, tier)
+    js = [coreutil.scenario_to_json(sc) for sc, _, _ in cases]
+    reals = runner.parallel_map('props.c03', 'real_wire', js, chunk=8)
+    lines = []
+    for (sc, plains, ext), r in zip(cases, reals):
+        peer = r.get('peer') if isinstance(r, dict) else None
+        zs = zlib_replay(plains, peer['cw'], peer['cnt']) if peer else []
+        lines.append('corez %s | %s' % (','.join(z.hex() for z in zs) if zs else '-', scenario_line(sc)[len('core '):]))
+    models = runner.model_run(lines) if model_ok else [None] * len(lines)
+    for (sc, plains, ext), j, r, line, model in zip(cases, js, reals, lines, models):
+        res.case(('wire', ext, tuple(sorted(sc.wfail)), 0 in sc.reactions, sc.prate), nontrivial=True)
+        res.count('wire-bytes')
+        if not isinstance(r, dict) or 'raw' not in r:
+            res.crashes.append(r if isinstance(r, dict) else dict(error=str(r))); continue
+        raw, peer = r['raw'], r.get('peer')
+        def fail(what, **kw):
+            res.failures.append(dict(cls='wire-bytes', what='reply extension %r: %s' % (ext, what), input=j, **kw))
+        if peer is None:
+            fail('harness: the reply was not understood by the reference peer'); continue
+        zs = zlib_replay(plains, peer['cw'], peer['cnt'])
+        # ---- oracle (no model): the stream after the request is a sequence of valid client frames; the compressed ones
+        # are FIN=1 RSV1=1 RSV2=RSV3=0 data frames carrying exactly the replayed zlib payloads in call order; every frame is
+        # masked with a key of the key source, later frames with later keys (a fresh key per frame)
+        frames = []
+        ok = True
+        for hx in raw[1:]:
+            try:
+                fr = decode_client_frames(bytes.fromhex(hx))
+            except ClientFrameError as e:
+                fail('a write is not a valid client frame: %s' % e, observed=hx[:80]); ok = False; break
+            if len(fr) != 1:
+                fail('one sendall carried %d frames' % len(fr), observed=hx[:80]); ok = False; break
+            frames.append(fr[0])
+        if not ok:
+            continue
+        zf = [f for f in frames if f['rsv1']]
+        if [(f['fin'], f['rsv2'], f['rsv3']) for f in zf] != [(1, 0, 0)] * len(zf) or any(f['opcode'] not in (1, 2) for f in zf):
+            fail('compressed frame with wrong flags/opcode'); continue
+        if [f['payload'] for f in zf] != zs:
+            fail('payloads of the compressed frames are not the sync-flushed raw-deflate stream of the call history (tail stripped)',
+                 observed=[f['payload'].hex()[:60] for f in zf], expected=[z.hex()[:60] for z in zs]); continue
+        keyidx = []
+        for f in frames:
+            k = next((k for k in range(64) if test_key(k) == f['key']), None)
+            keyidx.append(k)
+        if None in keyidx or any(a >= b for a, b in zip(keyidx, keyidx[1:])):
+            fail('masking keys are not successive draws of the key source', observed=keyidx); continue
+        res.traces_validated += 1
+        # ---- correspondence: the model renders the same bytes, sendall by sendall
+        if model is not None and model.split(' ') != raw:
+            mt = model.split(' ')
+            k = next((i for i, (a, b) in enumerate(zip(mt, raw)) if a != b), min(len(mt), len(raw)))
+            res.diffs.append(dict(input=line[:3000], real='%d writes; first difference at write %d: %s' % (len(raw), k, (raw[k] if k < len(raw) else '-')[:120]),
+                                  model='%d writes; %s' % (len(mt), (mt[k] if k < len(mt) else '-')[:120]), scenario=j))
+    res.exhaustive['wire_byte_streams_compared'] = len(cases)
+
+
 def explore(res, tier, seed, model_ok=True):
     import gencheck   # differential test of the translated code (Generated/Code.lean) against the original Python
     gencheck.run(res, 'C03', tier, seed, model_ok)
@@ -447,6 +567,7 @@ def explore(res, tier, seed, model_ok=True):
     coreutil.check_corr(res, pairs)
     explore_frames(res, tier, rng, model_ok)
     explore_histories(res, tier, rng, model_ok)
+    explore_wire(res, tier, rng, model_ok)
     res.samples += [pairs[0][1][-200:], pairs[len(pairs) // 2][1][-200:]]
 
 
@@ -465,5 +586,11 @@ def replay(rp):
         return 0
     if isinstance(inp, list) and len(inp) == 2 and rp.get('cls') == 'mask-table':
         print('mask_payload(%s, %s) -> %s' % (inp[0], inp[1], real_mask(inp)))
+        return 0
+    if rp.get('cls') == 'wire-bytes' and isinstance(inp, dict):
+        r = real_wire(inp)
+        print(r['trace'])
+        for n, hx_ in enumerate(r['raw']):
+            print('sendall #%d: %s' % (n, hx_[:400]))
         return 0
     return coreutil.replay_core(rp)
